@@ -153,6 +153,8 @@ func runC02(c *Ctx) {
 func c02HopProvenance(c *Ctx, hf *ssa.Function) {
 	w := c.w
 	rule := "hop-provenance"
+	ruleKVFind(c, rule, "(*ViaParam).GetParam")
+	ruleLoopCaptureReaching(c, rule, "received/rport of one request would carry the source of another sender's datagram, and its response goes there", "NewRawMessage")
 	gvs := w.callsIn(hf, "(*Message).GetVia")
 	if len(gvs) != 1 {
 		c.bad(rule, "hop/GetVia", w.pos(hf.Pos()), fmt.Sprintf("expected exactly one GetVia() in the hop function, found %d", len(gvs)))
